@@ -151,7 +151,7 @@ def installed(tracer):
             tracer.meta[t] = {"ops": sorted(x for x in toks.values() if x),
                               "steps": [[sorted({toks[o] for o in s["operators"] if o in toks and toks[o]}), s["otype"].name] for s in self.steps],
                               "supported": all(toks.values()) and all(o in toks or True for s in self.steps for o in s["operators"]),
-                              "lenient": self.tokens.atom is AtomBase}
+                              "lenient": False}
         pre = tracer.lists(self.tokens)
         tracer.emit(self.tokens, "begin", inp=list(_inp) if _inp is not None else ["#unknown"],
                     l=pre["l"], r=pre["r"])
